@@ -95,8 +95,9 @@ def alphabet(kind):
     if kind == 'full':
         ops.append(('registerUtilityFactory', 'a', 0, ''))
         ops.append(('reinit',))
-    if kind in ('full', 'util'):
+    if kind == 'full':
         # the volatile per-component count cache disappears (what persistence does to `_v_` attributes on a load): rebuilt on demand
+        # (the 'util' histories take it as a flag: dropped before their last operation)
         ops.append(('ghost',))
     return ops
 
@@ -303,7 +304,7 @@ def check_all(w, m, hist, col):
                         signature='C16:probe')
 
 
-def run_history(ops):
+def run_history(ops, ghost_before_last=False):
     import zope.interface.registry as R
     w = World()
     m = Model()
@@ -315,7 +316,10 @@ def run_history(ops):
     col = Collector()
     try:
         hist = []
-        for op in ops:
+        for k_, op in enumerate(ops):
+            if ghost_before_last and k_ == len(ops) - 1:
+                w.c._v_utility_registrations_cache = None       # volatile attribute lost (persistence); rebuilt on demand
+                hist.append('<volatile utility count cache dropped>')
             del events[:]
             hist.append(fmt_op(op))
             h = '; '.join(hist)
@@ -345,14 +349,17 @@ def make_e(params, part, nparts):
     NA = len(alpha)
     L = params['L']
 
-    def h(n: int, o1: int, o2: int, o3: int, o4: int):
+    def h(n: int, o1: int, o2: int, o3: int, o4: int, gh: int):
         c1 = pick(o1, NA)
         assume(c1 % nparts == part)
         ln = pick(n, L) + 1
         idx = [c1] + [pick(o, NA) for o in (o2, o3, o4)[:ln - 1]]
         ops = tuple(alpha[i] for i in idx)
-        reached(tuple(idx), dict(history=[fmt_op(o) for o in ops]))
-        native(run_history, ops)
+        ghost = False
+        if params['kind'] == 'util' and ln >= 3:
+            ghost = bool(pick(gh, 2))
+        reached(tuple(idx) + (ghost,), dict(history=[fmt_op(o) for o in ops], count_cache_dropped_before_last=ghost))
+        native(run_history, ops, ghost)
     return h
 
 
